@@ -220,7 +220,10 @@ class Program:
             if k >= 0:
                 ty, tr = type_head(inner[:k]), type_head(inner[k + 4:])
                 r = self.impl_index.get((ty, tr, meth))
-                if r: return r[0] + rest[mm.end():] if rest[mm.end():] in ('',) else r[0]
+                if r: return r[0]
+                # attribute-macro generated impls: the impl span is the attribute, the trait name is not recoverable
+                r = [n for n in self.impl_index.get((ty, '*', meth), []) if self._macro_impl(n)]
+                if len(r) == 1: return r[0]
                 return None
             ty = type_head(inner)
             r = self.impl_index.get((ty, None, meth))
@@ -245,6 +248,12 @@ class Program:
             if r:
                 return r[0]
         return None
+
+    def _macro_impl(self, name):
+        m = re.match(r'(.*?)<impl at ([^>]*)>::', name)
+        if not m: return False
+        ty, tr = self.impl_header(m.group(2))
+        return tr is not None and (tr.startswith('#') or not re.fullmatch(r'\w+', tr))
 
     def fn_of_closure(self, ident, creator=None):
         c = self.closure_index.get(ident)
@@ -467,8 +476,8 @@ class Machine:
                     v = v[p]
                 elif isinstance(v, Closure):
                     v = v.fields[p]
-                elif isinstance(v, Ref):
-                    # field of a pointer-like wrapper (e.g. Pin<&mut T>.0) - treat as the pointer itself
+                elif isinstance(v, (Ref, BoxV)):
+                    # field of a pointer-like wrapper (Box<T>.0 = Unique<T>, NonNull<T>.pointer ...) - the pointer itself
                     pass
                 elif isinstance(v, Str) or isinstance(v, Slice):
                     # fat pointer decomposition: .0 pointer, .1 len
